@@ -597,7 +597,7 @@ def observe(m, ids):
     return o
 
 
-def fresh_like(m, rng):
+def fresh_like(m, rng, shuffle=True):
     """A fresh Model with the same variables (same order of introduction) and the same equations in ANOTHER order,
     built through the public API only."""
     import sympy as sp
@@ -608,7 +608,8 @@ def fresh_like(m, rng):
         mp[v] = f.add_variable(v.name, v.units, initial_value=v.initial_value)
     scratch = None
     eqs = list(m.equations)
-    rng.shuffle(eqs)
+    if shuffle:
+        rng.shuffle(eqs)
     for e in eqs:
         for v in e.atoms(Variable):
             if v not in mp:      # a variable that is no longer in the model: stand-in from another model
@@ -698,12 +699,15 @@ def run_ops(case, rng):
         elif kind == 'check':
             rec['op'] = ['check']
             rec['obs'] = observe(m, ids)
+            steps.append(rec)
+            # equations in another order only when the content is well-formed: with ODEs that differentiate by
+            # different variables "the first ODE" is a matter of equation order, not of history
+            wf = [reference(lv, es)['wf'] for _, lv, es in contents({'steps': steps})][-1]
             try:
-                f, mp = fresh_like(m, rng)
+                f, mp = fresh_like(m, rng, shuffle=wf)
                 rec['fresh'] = observe(f, {nv: ids[ov] for ov, nv in mp.items()})
             except Exception as e:
                 rec['fresh'] = 'err:' + type(e).__name__
-            steps.append(rec)
             continue
         if call is None:
             rec['out'] = 'skip'
@@ -750,7 +754,7 @@ def run_loaded(case, rng):
         rec = eq_record(eq, ids, k)
         lhs = rec[1]
         steps.append({'op': ['addEq'] + rec, 'out': 'ok', 'entered': ['v', lhs[1]] if lhs[0] == 'var' else ['d', lhs[1], lhs[2]],
-                      'entered_rhs': rec[2]})
+                      'entered_rhs': rec[2], 'canon': True})
     rec = {'op': ['check'], 'out': 'ok', 'obs': observe(m, ids)}
     try:
         f, mp = fresh_like(m, rng)
@@ -948,7 +952,7 @@ def oracle(case, obs):
                 if same and va[1] == 'ok':
                     x, y = float(va[2]), float(vb[2])
                     cond = ref['values'][va[0]][2] if wf and ref['values'].get(va[0], ('',))[0] == 'ok' else 0
-                    same = close(x, Fraction(y), max(cond, 1000 * abs(Fraction(y))))
+                    same = close(x, Fraction(y), max(cond, 1000 * abs(Fraction(y)) + 1))
                 elif same and wf:
                     same = va[2] == vb[2]
                 if not same:
@@ -1097,14 +1101,16 @@ def compare(case, obs, replies):
                 return '%s: model has no value entry for %s' % (where, v)
             if m_[0] == 'ok':
                 q = Fraction(m_[1])
-                cond = ref['values'][v][2] if ref['wf'] and ref['values'][v][0] == 'ok' else 1000 * abs(q)
+                cond = ref['values'][v][2] if ref['wf'] and ref['values'][v][0] == 'ok' else 1000 * abs(q) + 1
                 if out != 'ok' or not close(float(rest[0]), q, cond):
                     return '%s: get_value(%s) implementation %s model %s' % (where, v, [out] + rest, m_)
             elif m_[1] in ('unsupported', 'arith'):
                 continue            # outside the model's arithmetic / SymPy returns zoo, nan or garbage there
+            elif out == 'ok' and not ref['wf'] and m_[1] in ('noDefinition', 'noInit'):
+                continue            # ill-formed content: SymPy may cancel the undefined reference away (x**2 - x**2)
             elif out == 'ok':
                 return '%s: get_value(%s) implementation %s model raises %s' % (where, v, rest[0], m_[1])
-            elif ref['wf'] and m_[1] in MODEL_ERR and rest[0] != MODEL_ERR[m_[1]]:
+            elif (ref['wf'] or m_[1] == 'fuel') and m_[1] in MODEL_ERR and rest[0] != MODEL_ERR[m_[1]]:
                 return '%s: get_value(%s) implementation raises %s model %s' % (where, v, rest[0], m_[1])
     return None
 
